@@ -30,7 +30,8 @@ def args_unary(op, shape, thorough):
             m = shape[ax]
             for r in (1, 2, 3):
                 yield {"repeats": r, "axis": ax}
-            for pat in itertools.product((1, 2, 3), repeat=m):
+            pats = itertools.product((1, 2, 3), repeat=m) if m <= 5 else [[1 + (i * k) % 3 for i in range(m)] for k in (1, 2, 4)]
+            for pat in pats:
                 if thorough or sum(pat) % 2 == 0:
                     yield {"repeats": list(pat), "axis": ax}
     elif op == "roll":
@@ -65,7 +66,9 @@ def args_unary(op, shape, thorough):
             if any(mask) and n <= 6:
                 yield {"condition": list(mask), "axis": None}
         for ax in neg_spellings(d):
-            for mask in itertools.product((0, 1), repeat=shape[ax]):
+            m = shape[ax]
+            masks = itertools.product((0, 1), repeat=m) if m <= 6 else [[(i * k + 1) % 3 % 2 for i in range(m)] for k in (1, 2, 5)] + [[1] * m]
+            for mask in masks:
                 if any(mask):
                     yield {"condition": list(mask), "axis": ax}
     elif op == "split":
@@ -75,8 +78,8 @@ def args_unary(op, shape, thorough):
                 if m % sec == 0:
                     for k in range(sec):
                         yield {"ios": sec, "axis": ax, "k": k}
-            for r in range(1, m):
-                for cuts in itertools.combinations(range(1, m), r):
+            for r in range(1, min(m, 4)):
+                for cuts in itertools.islice(itertools.combinations(range(1, m), r), 40):
                     for k in range(len(cuts) + 1):
                         yield {"ios": list(cuts), "axis": ax, "k": k}
     elif op == "sliding_window":
